@@ -85,6 +85,54 @@ package vnet
 //@   ensures err == nil ==> chDst == upd(old(chDst), ref(c), address) && chDstIP == upd(old(chDstIP), ref(c), ipOf(address))
 //@   ensures err != nil ==> chDst == old(chDst) && chDstIP == old(chDstIP)
 
+// ---- chunkUDP against the abstract view (refinement of the Chunk interface contracts).  coupled(c): the ghost view of c
+// ---- is the one determined by c's own fields.  Constructors establish it, every method that writes a field
+// ---- re-establishes it, observers are proved against the interface contract under it.
+//@ axiom validSame: forall s string :: {validAddr(s)} validAddr(s) == validUDP(s)
+//@ axiom ipOfUDP: forall a string, p mathint :: {udpStr(a, p)} ipOf(udpStr(a, p)) == a
+//@ pure coupled(c *chunkUDP) bool = chSrc[ref(c)] == udpStr(ipStr[base(c.chunkIP.sourceIP)], c.sourcePort) &&
+//@        chDst[ref(c)] == udpStr(ipStr[base(c.chunkIP.destinationIP)], c.destinationPort) &&
+//@        chSrcIP[ref(c)] == ipStr[base(c.chunkIP.sourceIP)] && chDstIP[ref(c)] == ipStr[base(c.chunkIP.destinationIP)] &&
+//@        chNet[ref(c)] == "udp" && chLen[ref(c)] == len(c.userData) && chStamp[ref(c)] == c.chunkIP.timestamp &&
+//@        (forall i mathint :: {c.userData[i]} 0 <= i && i < len(c.userData) ==> c.userData[i] == dataByte(chData[ref(c)], i))
+
+//@ func (c *chunkUDP) SourceAddr() (r net.Addr)
+//@   requires coupled(c)
+//@   ensures r != nil && typeis(r, *net.UDPAddr) && fresh(ptr(r, *net.UDPAddr)) && udpStr(ipStr[base(ptr(r, *net.UDPAddr).IP)], ptr(r, *net.UDPAddr).Port) == chSrc[ref(c)]
+//@ func (c *chunkUDP) DestinationAddr() (r net.Addr)
+//@   requires coupled(c)
+//@   ensures r != nil && typeis(r, *net.UDPAddr) && fresh(ptr(r, *net.UDPAddr)) && udpStr(ipStr[base(ptr(r, *net.UDPAddr).IP)], ptr(r, *net.UDPAddr).Port) == chDst[ref(c)]
+//@ func (c *chunkUDP) UserData() (r []byte)
+//@   requires coupled(c)
+//@   ensures len(r) == chLen[ref(c)] && (forall i mathint :: {r[i]} 0 <= i && i < len(r) ==> r[i] == dataByte(chData[ref(c)], i))
+//@ func (c *chunkUDP) Network() (r string)
+//@   requires coupled(c)
+//@   ensures r == chNet[ref(c)]
+//@ func (c *chunkUDP) Clone() (r Chunk)
+//@   requires coupled(c)
+//@   modifies chSrc, chDst, chSrcIP, chDstIP, chNet, chLen, chStamp, chData
+//@   ensures [copy] r != nil && typeis(r, *chunkUDP) && fresh(ptr(r, *chunkUDP)) && coupled(ptr(r, *chunkUDP)) && coupled(c)
+//@   ensures [same] chSrc[ref(r)] == chSrc[ref(c)] && chDst[ref(r)] == chDst[ref(c)] && chSrcIP[ref(r)] == chSrcIP[ref(c)] && chDstIP[ref(r)] == chDstIP[ref(c)] &&
+//@            chNet[ref(r)] == chNet[ref(c)] && chData[ref(r)] == chData[ref(c)] && chLen[ref(r)] == chLen[ref(c)]
+//@   ensures [deep] len(c.userData) > 0 ==> base(ptr(r, *chunkUDP).userData) != base(c.userData) && fresh(base(ptr(r, *chunkUDP).userData))
+//@   ensures [others] forall x mathint :: {chSrc[x]} x != ref(r) ==> chSrc[x] == old(chSrc[x]) && chDst[x] == old(chDst[x]) && chSrcIP[x] == old(chSrcIP[x]) && chDstIP[x] == old(chDstIP[x]) &&
+//@            chNet[x] == old(chNet[x]) && chLen[x] == old(chLen[x]) && chStamp[x] == old(chStamp[x]) && chData[x] == old(chData[x])
+//@   ghost at return: chSrc[ref(r)] = chSrc[ref(c)]; chDst[ref(r)] = chDst[ref(c)]; chSrcIP[ref(r)] = chSrcIP[ref(c)]; chDstIP[ref(r)] = chDstIP[ref(c)]; chNet[ref(r)] = chNet[ref(c)]; chLen[ref(r)] = chLen[ref(c)]; chStamp[ref(r)] = chStamp[ref(c)]; chData[ref(r)] = chData[ref(c)]
+//@ func (c *chunkUDP) setSourceAddr(address string) (err error)
+//@   requires coupled(c)
+//@   modifies c.sourceIP, c.sourcePort, chSrc, chSrcIP
+//@   ensures (err == nil) == validAddr(address)
+//@   ensures err == nil ==> chSrc == upd(old(chSrc), ref(c), address) && chSrcIP == upd(old(chSrcIP), ref(c), ipOf(address)) && coupled(c)
+//@   ensures err != nil ==> chSrc == old(chSrc) && chSrcIP == old(chSrcIP) && coupled(c)
+//@   ghost at return when err == nil: chSrc[ref(c)] = address; chSrcIP[ref(c)] = ipOf(address)
+//@ func (c *chunkUDP) setDestinationAddr(address string) (err error)
+//@   requires coupled(c)
+//@   modifies c.destinationIP, c.destinationPort, chDst, chDstIP
+//@   ensures (err == nil) == validAddr(address)
+//@   ensures err == nil ==> chDst == upd(old(chDst), ref(c), address) && chDstIP == upd(old(chDstIP), ref(c), ipOf(address)) && coupled(c)
+//@   ensures err != nil ==> chDst == old(chDst) && chDstIP == old(chDstIP) && coupled(c)
+//@   ghost at return when err == nil: chDst[ref(c)] = address; chDstIP[ref(c)] = ipOf(address)
+
 // ---- NAT (C02, C03).  Keys are built with fmt.Sprintf; the formats are uninterpreted functions with the axioms below
 // ---- (trusted for IPv4 "ip:port" / "ip" / "" arguments).
 //@ axiom okeyInj: forall a, b, c, d string :: {sprintf("udp:%s:%s", a, b), sprintf("udp:%s:%s", c, d)} sprintf("udp:%s:%s", a, b) == sprintf("udp:%s:%s", c, d) ==> a == c && b == d
@@ -614,12 +662,15 @@ package vnet
 // IP chosen by the host; the caller's buffer is neither kept nor modified
 //@ func (c *UDPConn) WriteTo(payload []byte, addr net.Addr) (n int, err error)
 //@   requires c.obs != nil && c.locAddr != nil && (typeis(addr, *net.UDPAddr) ==> ptr(addr, *net.UDPAddr) != nil)
-//@   modifies wrN, wrChunk
+//@   modifies wrN, wrChunk, chSrc, chDst, chSrcIP, chDstIP, chNet, chLen, chStamp
 //@   ensures [once] wrN == old(wrN) || wrN == old(wrN) + 1
 //@   ensures [ok] err == nil ==> n == len(payload) && wrN == old(wrN) + 1
 //@   ensures [none] (!typeis(addr, *net.UDPAddr) ==> err != nil && wrN == old(wrN))
 //@   ensures [frame] forall i mathint :: {payload[i]} 0 <= i && i < len(payload) ==> payload[i] == old(payload[i])
-//@   ghost before write#1: assert [copy] fresh(base(chunk.userData)) && len(chunk.userData) == len(payload) && (forall i mathint :: {chunk.userData[i]} 0 <= i && i < len(payload) ==> chunk.userData[i] == payload[i]); assert [addr] chunk.sourcePort == c.locAddr.Port && chunk.destinationPort == ptr(addr, *net.UDPAddr).Port && chunk.chunkIP.destinationIP == ptr(addr, *net.UDPAddr).IP
+//@   ensures [view] wrN == old(wrN) + 1 ==> chNet[wrChunk[old(wrN)]] == "udp" && chLen[wrChunk[old(wrN)]] == len(payload) &&
+//@            chDst[wrChunk[old(wrN)]] == udpStr(ipStr[base(ptr(addr, *net.UDPAddr).IP)], ptr(addr, *net.UDPAddr).Port) &&
+//@            (forall i mathint :: {payload[i]} 0 <= i && i < len(payload) ==> dataByte(chData[wrChunk[old(wrN)]], i) == old(payload[i]))
+//@   ghost before write#1: assert [copy] fresh(base(chunk.userData)) && len(chunk.userData) == len(payload) && (forall i mathint :: {chunk.userData[i]} 0 <= i && i < len(payload) ==> chunk.userData[i] == payload[i]); assert [addr] chunk.sourcePort == c.locAddr.Port && chunk.destinationPort == ptr(addr, *net.UDPAddr).Port && chunk.chunkIP.destinationIP == ptr(addr, *net.UDPAddr).IP; chSrc[ref(chunk)] = udpStr(ipStr[base(chunk.chunkIP.sourceIP)], chunk.sourcePort); chDst[ref(chunk)] = udpStr(ipStr[base(chunk.chunkIP.destinationIP)], chunk.destinationPort); chSrcIP[ref(chunk)] = ipStr[base(chunk.chunkIP.sourceIP)]; chDstIP[ref(chunk)] = ipStr[base(chunk.chunkIP.destinationIP)]; chNet[ref(chunk)] = "udp"; chLen[ref(chunk)] = len(chunk.userData); chStamp[ref(chunk)] = chunk.chunkIP.timestamp; assume forall i mathint :: {chunk.userData[i]} 0 <= i && i < len(chunk.userData) ==> chunk.userData[i] == dataByte(chData[ref(chunk)], i); assert [coupled] coupled(chunk)
 
 // ---- UDP sockets: read deadline (C10)
 //@ pure isTimeout(err error) bool = typeis(err, *net.OpError) && typeis(ptr(err, *net.OpError).Err, *timeoutError)
@@ -725,7 +776,7 @@ package vnet
 //@ property C03: networkAddressTranslator.translateInbound, networkAddressTranslator.removeMapping
 //@ property C14: chunkQueue.push, chunkQueue.pop, chunkQueue.peek, DelayFilter.onInboundChunk, DelayFilter.Run, Router.push, Router.processChunks, Router.AddChunkFilter
 //@ property C15: TokenBucketFilter.refillTokens, TokenBucketFilter.drainQueue, TokenBucketFilter.run, TokenBucketFilter.onInboundChunk, chunkQueue.push, chunkQueue.pop, chunkQueue.peek
-//@ property C01: Router.processChunks, Router.push, Router.onInboundChunk, Net.write, Net.onInboundChunk, UDPConn.WriteTo, UDPConn.ReadFrom, UDPConn.onInboundChunk, chunkQueue.push, chunkQueue.pop, chunkQueue.peek, udpConnMap.find
+//@ property C01: chunkUDP.SourceAddr, chunkUDP.DestinationAddr, chunkUDP.UserData, chunkUDP.Network, chunkUDP.Clone, chunkUDP.setSourceAddr, chunkUDP.setDestinationAddr, Router.processChunks, Router.push, Router.onInboundChunk, Net.write, Net.onInboundChunk, UDPConn.WriteTo, UDPConn.ReadFrom, UDPConn.onInboundChunk, chunkQueue.push, chunkQueue.pop, chunkQueue.peek, udpConnMap.find
 //@ property C13: Router.assignIPAddress, Router.addNIC, udpConnMap.insert, udpConnMap.find, udpConnMap.delete, newUDPConn, UDPConn.onInboundChunk, UDPConn.Close, Net.onInboundChunk, Net.onClosed, Net.allocateLocalAddr, Net.assignPort, Net._dialUDP
 //@ property C10: UDPConn.ReadFrom, UDPConn.Read, UDPConn.SetReadDeadline, UDPConn.SetDeadline
 //@ property C16: NewLossFilter, LossFilter.onInboundChunk
